@@ -35,6 +35,8 @@ CHECKS = {
          "deterministic simulation: strict ping-pong on a flush-visibility transport with deadlock (quiescence) detection"),
  "C18": ("exploration", "Twelve rejection classes and every exit path of ServeHTTP (reached by fault schedules) are checked on the event history: dispatch count, handler context cancelled at the return event, no body/writer call after it.",
          "deterministic simulation with fault injection: event-history oracle over global sequence numbers"),
+ "C19": ("exploration", "GET decision model: inbound (405 + Allow + no dispatch for methods with side effects; GET == POST metamorphism) and outbound to a Connect backend (GET only under all four preconditions), with every issued GET re-run at URL limits of exactly its length and +-1, +-2. Closed-world reference model; schedules and faults play no role.",
+         "deterministic simulation used as closed-world harness: GET decision reference model with computed URL-length boundaries"),
  "C08": ("exploration", "I/O segmentation is the schedule: every scenario is run atomically and under drawn segmentations of deliveries, handler read sizes, handler writes/flushes and scheduling policies; metamorphic equality of handler-visible request bytes and canonical client outcome.",
          "deterministic simulation: atomic-vs-segmented differential under seeded I/O schedules"),
 }
